@@ -343,7 +343,7 @@ def gen_inputs(seed, n):
     return out
 
 
-def d1_batch(name, cases, release):
+def d1_batch(name, cases, release, full=False):
     """compile the inputs through the real macro; returns {cid: [diags]}, crashed cids"""
     shards = H.shard(cases, min(NCPU, max(1, len(cases) // 250)))
     progs = {}
@@ -352,9 +352,9 @@ def d1_batch(name, cases, release):
         for cid, text in sh:
             p.add_case(cid, H.module(cid, "use ::educe::Educe;\n" + text + "\n"))
         progs["t%d" % i] = p
-    B.setup_d1(name, {b: p.source() for b, p in progs.items()}, rt=True)
+    B.setup_d1(name, {b: p.source() for b, p in progs.items()}, rt=True, educe_features=["full"] if full else None)
     rc, diags, err = B.cargo_build_d1(name, release=release, subcmd="check",
-                                      target_dir=os.path.join(WORK, "tgt", "d1-check"))
+                                      target_dir=os.path.join(WORK, "tgt", "d1-check-full" if full else "d1-check"))
     att = H.attribute_diags(progs, diags)
     per = {}
     spanless = []
@@ -400,6 +400,10 @@ def main(tier, seed, scale=1.0):
     res = B.run_inproc(inputs, items=False, timeout=300)
     dbg_sample = [c for i, c in enumerate(inputs) if i % 10 == 0 or c[0].startswith("h")]
     res_dbg = B.run_inproc(dbg_sample, items=False, profile="debug", timeout=300)
+    # educe's `full` feature switches syn to its complete expression grammar: other parse paths
+    full_sample = [c for i, c in enumerate(inputs) if i % 5 == 1 or c[0].startswith("h")]
+    res_full = B.run_inproc(full_sample, items=False, full=True, timeout=300)
+    full_candidates = [cid for cid, t in full_sample if (res_full.get(cid) or {}).get("st") in ("panic", "crash", "timeout")]
     candidates = []
     slow = []
     stats = {}
@@ -465,6 +469,30 @@ def main(tier, seed, scale=1.0):
                     chk.inconc("rustc-crash-not-isolated")
         chk.count("d1_inputs_" + prof, len(d1_cases))
         chk.evaluations += len(d1_cases)
+    # the same through rustc with educe's `full` feature enabled (dev profile)
+    rngf = rng_for(seed, PROP, "d1full")
+    fids = sorted(set(full_candidates)) + [c for c, _ in full_sample if c.startswith("h")]
+    extra = [c for c, _ in full_sample if not c.startswith("h")]
+    rngf.shuffle(extra)
+    fids += extra[:n_d1 // 4]
+    per, spanless, crashed, progs, err = d1_batch("c17full", [(c, texts[c]) for c in dict.fromkeys(fids)], False, full=True)
+    for cid, ds in per.items():
+        for d in ds:
+            if "panicked" in d["message"] or "proc-macro derive panicked" in d.get("rendered", ""):
+                confirmed.add(cid)
+                m = re.search(r"message: (.*)", d.get("rendered", ""))
+                what = (m.group(1) if m else d["message"])[:80]
+                chk.violation("panic|full|%s" % re.sub(r"\d+", "N", what),
+                              "proc-macro derive panicked under rustc with educe's `full` feature: %s\n%s" %
+                              (d.get("rendered", "")[:800], texts[cid][:3000]), {"input.rs": texts[cid]})
+    for b, d in spanless:
+        chk.violation("spanless|full|%s" % d["message"][:60], "rustc reports an educe error without any span (full feature, %s): %s"
+                      % (b, d["message"]), {"crate.rs": progs[b].source()[:200000]})
+    chk.count("d1_inputs_full_feature", len(set(fids)))
+    chk.evaluations += len(set(fids)) + len(full_sample)
+    for cid in full_candidates:
+        if cid not in confirmed:
+            chk.count("inproc_only:full-runner")
     for cid, st, msg in candidates:
         if cid not in confirmed:
             chk.count("inproc_only:" + st)
